@@ -34,7 +34,7 @@ EvVerdict(cfg, s, e, k) ==
      ELSE IF ~(e.tok \in r.ids) THEN
           (IF cfg.static THEN Fail("static-any-time", k) ELSE IF \E j \in 1..Len(s.pubs) : s.pubs[j].id \in r.ids /\ s.pubs[j].sp
            THEN Fail("spill-transparent", k) ELSE Fail("nearest", k))
-     ELSE IF ~cfg.static /\ ~(e.tok \in ServeFull(s, e.t)) THEN Fail("as-unlimited", k)
+     ELSE IF ~cfg.static /\ ~(e.tok \in ServeFull(s, ReqT(cfg, s, e.k, e.t))) THEN Fail("as-unlimited", k)
      ELSE SnapVerdict(r.st, e, k)
   ELSE
      LET s2 == Finalize(s) IN
